@@ -214,11 +214,11 @@ func verifHarness_C06_t08_body_then_pipelined_Q() { verifC06Harness(8, 3, 1) }
 func verifHarness_C06_t08_body_then_pipelined_T() { verifC06Harness(8, 4, 1) }
 func verifHarness_C06_t08_body_then_pipelined_two_cuts_T() { verifC06Harness(8, 2, 2) }
 func verifHarness_C06_t09_transfer_encoding_value_Q() { verifC06Harness(9, 2, 1) }
-func verifHarness_C06_t09_transfer_encoding_value_T() { verifC06Harness(9, 3, 1) }
-func verifHarness_C06_t09_transfer_encoding_value_two_cuts_T() { verifC06Harness(9, 2, 2) }
+func verifHarness_C06_t09_transfer_encoding_value_T() { verifC06Harness(9, 2, 1) }
+func verifHarness_C06_t09_transfer_encoding_value_two_cuts_T() { verifC06Harness(9, 1, 2) }
 func verifHarness_C06_t10_chunk_size_Q() { verifC06Harness(10, 2, 1) }
 func verifHarness_C06_t10_chunk_size_T() { verifC06Harness(10, 3, 1) }
-func verifHarness_C06_t10_chunk_size_two_cuts_T() { verifC06Harness(10, 2, 2) }
+func verifHarness_C06_t10_chunk_size_two_cuts_T() { verifC06Harness(10, 1, 2) }
 func verifHarness_C06_t11_chunk_ext_Q() { verifC06Harness(11, 3, 1) }
 func verifHarness_C06_t11_chunk_ext_T() { verifC06Harness(11, 4, 1) }
 func verifHarness_C06_t11_chunk_ext_two_cuts_T() { verifC06Harness(11, 2, 2) }
